@@ -26,6 +26,16 @@ func init() {
 // Decode/decodeOne (which write their own receiver), the constructors, the
 // functional option closure and package initialisers.
 func (e *Env) queryFunctions() (queries, decoders []*ssa.Function) {
+	perToken := map[types.Object]bool{}
+	for _, v := range []*spec.Version{&spec.V3, &spec.V2} {
+		if ls, err := e.F.Levels(v); err == nil {
+			for _, l := range ls {
+				if l.DecodeOne != nil {
+					perToken[l.DecodeOne] = true
+				}
+			}
+		}
+	}
 	for _, fn := range e.F.Effects().All {
 		if fn.Pkg == nil || !load.IsLib(fn.Pkg.Pkg.Path()) || fn.Synthetic != "" {
 			continue
@@ -37,7 +47,7 @@ func (e *Env) queryFunctions() (queries, decoders []*ssa.Function) {
 		switch {
 		case strings.HasPrefix(name, "init"):
 			continue
-		case fn.Signature.Recv() != nil && (name == "Decode" || name == "decodeOne"):
+		case fn.Signature.Recv() != nil && (name == "Decode" || perToken[fn.Object()]):
 			decoders = append(decoders, fn)
 		default:
 			queries = append(queries, fn)
@@ -266,9 +276,9 @@ func c16(e *Env) {
 // templatePrivate: E5.
 func (e *Env) templatePrivate(rule string) {
 	c := e.C
-	fn := e.P.LookupFunc("v3/report", "executeTemplate")
+	fn, _ := e.reportHelpers()
 	if fn == nil {
-		c.Fail(rule, "v3/report.executeTemplate", "", "function not found")
+		c.Fail(rule, "v3/report template helper", "", "the function ExportWithString hands the template text to was not found")
 		return
 	}
 	sf := e.P.SSAFunc(fn)
@@ -325,10 +335,9 @@ func (e *Env) templateRules() {
 	c := e.C
 	rule := "template-export"
 	pkT := e.P.Lib("v3/report").Types
-	exec := e.P.LookupFunc("v3/report", "executeTemplate")
-	gts := e.P.LookupFunc("v3/report", "getTempleteString")
+	exec, gts := e.reportHelpers()
 	if exec == nil || gts == nil {
-		c.Fail(rule, "v3/report", "", "executeTemplate / getTempleteString not found")
+		c.Fail(rule, "v3/report", "", "the template helpers (callee of ExportWithString taking (data, text); callee of ExportWith taking the reader) were not found")
 		return
 	}
 	leavesOf := func(fn *types.Func) []*ir.Leaf {
@@ -490,4 +499,56 @@ func (e *Env) templateRules() {
 			c.Check(ok, rule, cons, e.P.Pos(lf.Pos), "own ExportWithString on the reader's full, unmodified content", "exporting from a reader is not ExportWithString(full content of the reader) of the same report: "+clip(lf.String()))
 		}
 	}
+}
+
+// reportHelpers identifies the two unexported template helpers by role:
+// exec = the package function every ExportWithString passes (receiver, text) to;
+// read = the package function every ExportWith passes its io.Reader to.
+func (e *Env) reportHelpers() (exec, read *types.Func) {
+	pk := e.P.Lib("v3/report")
+	if pk == nil {
+		return nil, nil
+	}
+	find := func(method string, want func(sig *types.Signature) bool) *types.Func {
+		var found *types.Func
+		for _, tn := range []string{"BaseReport", "TemporalReport", "EnvironmentalReport"} {
+			T, _ := pk.Types.Scope().Lookup(tn).(*types.TypeName)
+			if T == nil {
+				return nil
+			}
+			m := load.MethodOf(T.Type(), method)
+			if m == nil {
+				return nil
+			}
+			sf := e.P.SSAFunc(m)
+			var here *types.Func
+			for _, b := range sf.Blocks {
+				for _, in := range b.Instrs {
+					call, ok := in.(*ssa.Call)
+					if !ok || call.Call.StaticCallee() == nil {
+						continue
+					}
+					callee, _ := call.Call.StaticCallee().Object().(*types.Func)
+					if callee == nil || callee.Pkg() != pk.Types || callee.Type().(*types.Signature).Recv() != nil {
+						continue
+					}
+					if want(callee.Type().(*types.Signature)) {
+						here = callee
+					}
+				}
+			}
+			if here == nil || (found != nil && found != here) {
+				return nil
+			}
+			found = here
+		}
+		return found
+	}
+	exec = find("ExportWithString", func(sig *types.Signature) bool {
+		return sig.Params().Len() == 2 && sig.Results().Len() == 2 && isString(sig.Params().At(1).Type())
+	})
+	read = find("ExportWith", func(sig *types.Signature) bool {
+		return sig.Params().Len() == 1 && sig.Results().Len() == 2 && sig.Params().At(0).Type().String() == "io.Reader" && isString(sig.Results().At(0).Type())
+	})
+	return
 }
